@@ -203,8 +203,34 @@ impl Gen<'_> {
     }
     fn load(&mut self, t: Ty, n: usize) {
         let names: Vec<(String, Ty)> = (0..n).map(|_| (self.fresh(), t.clone())).collect();
+        let mut prev: Option<WVal> = None;
         for (name, _) in &names {
-            let v = self.wval(&t);
+            let mut v = self.wval(&t);
+            // byte arrays that differ by the order of the native field in a 32-byte
+            // little-endian chunk: equal once packed into one field element
+            if let (Ty::Bytes(nb), Some(WVal::Bytes(p))) = (&t, &prev) {
+                if *nb >= 32 && self.rng.chance(1, 2) {
+                    let mut a = crate::util::unhex(p);
+                    let chunk = self.rng.usize(nb / 32) * 32;
+                    let x = BigUint::from(self.rng.below(1 << 20));
+                    let r = crate::util::fq_modulus();
+                    let k = if self.rng.chance(1, 2) { 1u32 } else { 2 };
+                    let (lo, hi) = (x.clone(), &x + &r * k);
+                    let put = |a: &mut Vec<u8>, v: &BigUint| {
+                        let mut b = v.to_bytes_le();
+                        b.resize(32, 0);
+                        a[chunk..chunk + 32].copy_from_slice(&b);
+                    };
+                    let mut b = a.clone();
+                    put(&mut a, &lo);
+                    put(&mut b, &hi);
+                    // rewrite the previous witness and make this one its alias
+                    let last = self.witness.len() - 1;
+                    self.witness[last].1 = WVal::Bytes(crate::util::hex(&a));
+                    v = WVal::Bytes(crate::util::hex(&b));
+                }
+            }
+            prev = Some(v.clone());
             self.witness.push((name.clone(), v));
         }
         self.push(json!({"load": Self::ty_json(&t)}), vec![], names);
@@ -425,7 +451,7 @@ pub fn gen_program(rng: &mut Prng, heavy: bool) -> (String, Vec<(String, WVal)>,
             6 => Ty::Scalar,
             _ => Ty::Native,
         };
-        let n = g.rng.range(1, 2) as usize;
+        let n = if matches!(t, Ty::Bytes(nb) if nb >= 32) { 2 } else { g.rng.range(1, 2) as usize };
         g.load(t, n);
     }
     // publish every loaded value first: the loads become part of the statement,
@@ -766,6 +792,20 @@ fn run(s: &Scn, st: &mut Stats) -> Verdict {
     let mut wit = s.witness.clone();
     if let Corruption::MissingWitness(n) = &s.corruption {
         wit.retain(|w| w.0 != *n);
+    }
+    // ---- the same program delivered in binary form must get the same answer as in JSON form
+    let json_read = catch(|| ZkirRelation::read(leak(&text)).is_ok());
+    if let Ok(ins) = serde_json::from_value::<Vec<Instruction>>(serde_json::from_str::<serde_json::Value>(&text).unwrap()["instructions"].clone()) {
+        if let Ok(bytes) = bincode::encode_to_vec(&ins, bincode::config::standard()) {
+            let bin_read = catch(|| ZkirRelation::read_relation(&mut &bytes[..]).is_ok());
+            match (&json_read, &bin_read) {
+                (_, Err(p)) => return vio("Panic", &format!("read_relation@{}", p.site_file()), format!("read_relation panicked at {} ({:?}): {}", p.site(), s.corruption, p.msg)),
+                (Ok(j), Ok(b)) if j != b => {
+                    return vio("SidesDisagree", "json-vs-binary-acceptance", format!("program ({:?}): ZkirRelation::read gives {} on the JSON form, read_relation gives {} on the binary form of the same instructions", s.corruption, if *j { "Ok" } else { "Err" }, if *b { "Ok" } else { "Err" }))
+                }
+                _ => st.inc("binary_delivery_agrees_with_json"),
+            }
+        }
     }
     // ---- decode (JSON)
     let rel = match catch(|| ZkirRelation::read(leak(&text))) {
